@@ -28,6 +28,9 @@ type c36Entry struct {
 	After  bool   `json:"after,omitempty"` // DH/DR/Type deviations are written into the entry after signing the regular content
 	Sig    string `json:"sig,omitempty"`   // "" valid | flip | otherkey | chain | empty
 	Aux    int    `json:"aux,omitempty"`
+	// Relabel > 0: after signing, ValidatorAddress (not covered by the signature) is
+	// rewritten to the address of Old[(Relabel-1) % len(Old)] (future mode only).
+	Relabel int `json:"relabel,omitempty"`
 }
 
 type c36Case struct {
@@ -230,6 +233,9 @@ func c36Build(c c36Case) (newSet, oldSet *types.ValidatorSet, commit *types.Comm
 		if e.After {
 			vote.Type, vote.Height, vote.Round = typ, c.Height+int64(e.DH), c.Round+e.DR
 		}
+		if e.Relabel > 0 && c.Mode == "future" && len(c.Old) > 0 {
+			vote.ValidatorAddress = bftAddr(c.Old[(e.Relabel-1)%len(c.Old)].Key)
+		}
 		sigs[i] = vote.CommitSig()
 	}
 	switch c.Len {
@@ -278,6 +284,25 @@ func c36Exec(ctx *vk.Ctx, c c36Case) error {
 	ctx.ClassIf(ref.why == "a present signature does not verify" && 3*ref.tally > 2*ref.total, "bad-signature-on-surplus-entry")
 	ctx.NTIf(ref.nearNew || ref.nearOld)
 	ctx.Note("ref", fmt.Sprintf("accept=%v why=%q tally=%d/%d old=%d/%d", ref.accept, ref.why, ref.tally, ref.total, ref.oldTally, ref.oldTotal))
+	relabelled := false
+	for _, e := range c.Entries {
+		if !e.Absent && e.Relabel > 0 && c.Mode == "future" {
+			relabelled = true
+		}
+	}
+	ctx.ClassIf(relabelled, "relabelled-addresses")
+	if relabelled {
+		// The address label is not authenticated. The reference tallies old-set power by the
+		// keys that really signed; the implementation looks validators up by the label and may
+		// therefore reject more (a label naming an old validator whose key did not sign). Only
+		// one direction is required: an accepted commit must have +2/3 of real old-set signers.
+		if err == nil && !ref.accept {
+			return fmt.Errorf("future verification ACCEPTED a commit with relabelled validator addresses; reference: %s; old-set power that really signed %d of %d",
+				ref.why, ref.oldTally, ref.oldTotal)
+		}
+		ctx.ClassIf(err != nil && ref.accept, "relabelled-rejected-by-label-lookup")
+		return nil
+	}
 	if (err == nil) != ref.accept {
 		return fmt.Errorf("%s verification returned %v; reference: accept=%v (%s); tally for asked block %d of %d, old-set tally %d of %d",
 			c.Mode, err, ref.accept, ref.why, ref.tally, ref.total, ref.oldTally, ref.oldTotal)
@@ -449,6 +474,15 @@ func c36Draw(rt *rapid.T) c36Case {
 		}
 		for k := range c.Old {
 			c.Old[k].Power = ops[k]
+		}
+		// sometimes relabel the (unauthenticated) validator addresses of present entries to
+		// old-set validators, preferably ones that did not sign
+		if rapid.IntRange(0, 99).Draw(rt, "relabel") < 25 {
+			for k := range c.Entries {
+				if !c.Entries[k].Absent && rapid.IntRange(0, 99).Draw(rt, "relabelentry") < 70 {
+					c.Entries[k].Relabel = 1 + rapid.IntRange(0, len(c.Old)-1).Draw(rt, "relabelto")
+				}
+			}
 		}
 	}
 	return c
